@@ -11,6 +11,8 @@ package c01world
 
 import (
 	"fmt"
+	"github.com/youchainhq/go-youchain/rlp"
+	"github.com/youchainhq/go-youchain/staking"
 	"math/big"
 	"sort"
 	"time"
@@ -77,8 +79,12 @@ type setup struct {
 	chainworld.Setup
 	T, Tp   uint64 // protocol ValidatorThreshold / ProposerThreshold installed for this run
 	nBlocks int    // honest blocks before the target block
-	whale   bool
-	rogue   int // index of the validator registered with a crafted (rogue) BLS key, -1: none
+	// depositAt > 0: validator 1 deposits in that block; the deposit takes effect at the end of
+	// the first staking period (block 15) and the chain is long enough for the target block's
+	// stake look-back (N-16) to lie before and its seed look-back (N-8) after that change
+	depositAt int
+	whale     bool
+	rogue     int // index of the validator registered with a crafted (rogue) BLS key, -1: none
 }
 
 var (
@@ -115,6 +121,11 @@ func drawSetup(c *kit.Chooser) setup {
 	s.T = tChoices[c.Intn("T", len(tChoices))]
 	s.Tp = tpChoices[c.Intn("Tp", len(tpChoices))]
 	s.nBlocks = lengthChoices[c.Intn("chain-length", len(lengthChoices))]
+	if s.rogue != 1 && c.Chance("validator-set-changes-inside-the-window", 1, 5) {
+		s.nBlocks = 22 + c.Intn("long-chain", 8) // target block N = 23..30
+		s.depositAt = 2 + c.Intn("deposit-at", 12)
+		s.Offline[1], s.House[1] = false, false
+	}
 	return s
 }
 
@@ -194,6 +205,9 @@ func run(r *kit.Run) {
 
 		// honest prefix: blocks 1..N-1 on the builder and both importers
 		for i := 0; i < su.nBlocks; i++ {
+			if su.depositAt > 0 && i+1 == su.depositAt {
+				fx.submitDeposit()
+			}
 			blk := fx.buildHonest(true)
 			if blk == nil {
 				return
@@ -306,6 +320,33 @@ func (fx *fixture) buildHonest(withTxs bool) *types.Block {
 	return blk
 }
 
+// submitDeposit: client 1, the operator of validator 1, deposits: the validator's stake (and the
+// total stake) change when the deposit takes effect at the end of the staking period.
+func (fx *fixture) submitDeposit() {
+	w := fx.w
+	key := chainkit.ClientKey(1)
+	addr := chainworld.ClientAddr(1)
+	n := w.Nonces[addr]
+	w.Nonces[addr] = n + 1
+	amt := new(big.Int).Mul(big.NewInt(int64(20000+1000*fx.r.C.Intn("deposit-amount", 40))), params.StakeUint)
+	payload, err := rlp.EncodeToBytes(&staking.TxValidatorDeposit{MainAddress: w.Vals[1].Key.Addr, Value: amt, Nonce: n})
+	if err != nil {
+		panic(err)
+	}
+	data, err := rlp.EncodeToBytes(&staking.Message{Action: staking.ValidatorDeposit, Payload: payload})
+	if err != nil {
+		panic(err)
+	}
+	tx := types.NewTransaction(n, params.StakingModuleAddress, new(big.Int), 400000, big.NewInt(3), data)
+	stx, err := types.SignTx(tx, chainkit.Signer(), key)
+	if err != nil {
+		panic(err)
+	}
+	errs := w.Submit(stx)
+	fx.r.Logf("validator %s deposits %v (pool: %v)", w.Vals[1].Key.Name(), amt, errs[0])
+	fx.r.Fault("validator-deposit")
+}
+
 // prepare derives the fixture of the target block from the honest material.
 func (fx *fixture) prepare() bool {
 	r, w := fx.r, fx.w
@@ -383,6 +424,12 @@ func (fx *fixture) prepare() bool {
 	}
 	if fx.seedHdr.Number.Uint64() > 0 {
 		r.Probe("seed-lookback-is-not-genesis")
+	}
+	if vs, err := fx.imA.Chain.GetVldReader(fx.seedHdr.ValRoot); err == nil {
+		a, b := fx.vld.GetValidatorByMainAddr(w.Vals[1].Key.Addr), vs.GetValidatorByMainAddr(w.Vals[1].Key.Addr)
+		if a != nil && b != nil && a.Stake.Cmp(b.Stake) != 0 {
+			r.Probe("a stake differs between the stake look-back and the seed look-back state")
+		}
 	}
 	var desc []string
 	var wsum uint64
